@@ -14,8 +14,8 @@ from .num import as_map, cq, fq, synth
 from .tlaval import parse_behaviour_file
 
 OWNER = {"derive": "C05", "filter": "C04", "apply": "C03", "rk": "C02", "resample": "C15", "leray": "C10", "incomp": "C10", "poisson": "C05", "oddball": "C04", "addmode": None,
-         "advect": "C01", "advectn": "C14", "forced": "C12", "interp": "C15", "spectrum": "C17", "metric": "C16", "coefs": "C04"}
-OBSERVATIONS = {"interp", "spectrum", "metric", "coefs"}
+         "advect": "C01", "advectn": "C14", "forced": "C12", "reject": "C20", "interp": "C15", "spectrum": "C17", "metric": "C16", "coefs": "C04"}
+OBSERVATIONS = {"interp", "spectrum", "metric", "coefs", "reject"}
 INVS = ["RealOK", "BandOK", "FilterOK", "ProjectOK", "DeriveOK", "OddballOK", "InterpOK", "SpectrumOK", "MetricOK"]
 PROPS = ["PoissonOK", "AdvectOK", "EquivOK"]
 DT_ADV = 0.5
@@ -62,6 +62,35 @@ def simulate(run, tier, seed, label, num=None):
     run.extra["session_simulation_runs"] = {"runs": rounds, "stopped_by_32bit_overflow": overflows}
     shutil.rmtree(work, ignore_errors=True)
     return behs
+
+
+def exhaustive(run, label):
+    """The whole reachable state graph of a tiny instance (one kind, two grids, two operations deep) with every invariant and action property;
+    every family of operations must have been executed (vacuity guard: counted from the dumped states)."""
+    work = os.path.join(tlc.SCRATCH, f"sessionx.{os.getpid()}.{label}")
+    os.makedirs(work, exist_ok=True)
+    cfg = os.path.join(work, "Session.cfg")
+    tlc.write_cfg(cfg, spec="Spec", constants={"Kinds": '{"s1"}', "Sizes": "{1004, 1005}", "MaxNl": 1, "MaxRK": 1, "Seeds": 1, "MaxLen": 2},
+                  invariants=INVS, properties=PROPS)
+    res = tlc.run_tlc("Session", cfg, workers=16, dump=True, timeout=3400, tag="SessionX_" + label)
+    run.add_tlc(res, "Session/exhaustive")
+    if not res.ok:
+        run.violation({"kind": "spec", "invariant": res.violated, "what": "Session (exhaustive)"}, {"trace": res.trace_text})
+    ops = {}
+    import re as _re
+    with open(res.dump) as f:
+        for ln in f:
+            if "op |->" in ln:
+                m = _re.search(r'op \|-> "(\w+)"', ln)
+                if m:
+                    ops[m.group(1)] = ops.get(m.group(1), 0) + 1
+    tlc.cleanup(res)
+    shutil.rmtree(work, ignore_errors=True)
+    scalar_1d = set(OWNER) - {"leray", "incomp"}            # the vector operations need a vector kind
+    missing = sorted(o for o in scalar_1d if o not in ops)
+    run.extra["session_exhaustive"] = {"distinct_states": res.distinct, "depth": res.depth, "states_by_last_operation": ops, "never_executed": missing}
+    if missing:
+        raise tlc.MachineryError(f"Session (exhaustive): operations never executed: {missing}")
 
 
 def _field(D, N, st):
@@ -222,6 +251,35 @@ def observe(ex, jnp, D, N, u, last):
                float(m.fourier_MSE(ju, domain_extent=L, derivative_order=1))]
         want = [mse, L ** D * mse, mse, sum(np.sqrt(float(fq(c))) for c in obs["chan"]), L ** D * band, L ** D * (mse + grad), L ** D * grad]
         return np.array(got), np.array(want), 1.0 + L ** D * (mse + grad)
+    if op == "reject":
+        import equinox as eqx
+        import jax
+        C = 1 if last["target"] == "advection" else D
+        k = ("rej", D, N, last["target"])
+        if k not in _CACHE:
+            _CACHE[k] = ex.stepper.Advection(D, L, N, 0.1) if last["target"] == "advection" else ex.stepper.Burgers(D, L, N, 0.1)
+        stp = _CACHE[k]
+        good = np.zeros((C,) + (N,) * D) + u[:1].mean()
+        bad = {"extra_channel": np.zeros((C + 1,) + (N,) * D), "no_channel_axis": np.zeros((N,) * D), "axis_plus_one": np.zeros((C,) + (N,) * (D - 1) + (N + 1,)),
+               "all_axes_plus_one": np.zeros((C,) + (N + 1,) * D), "batch_axis": np.zeros((1, C) + (N,) * D),
+               "missing_spatial_axis": np.zeros((C,) + (N,) * (D - 1))}[last["mut"]]
+        jb = jnp.asarray(bad)
+        how = last["how"]
+        call = {"eager": lambda: stp(jb), "jit": lambda: eqx.filter_jit(stp)(jb), "vmap": lambda: jax.vmap(stp)(jnp.stack([jb, jb])),
+                "rollout": lambda: ex.rollout(stp, 2)(jb), "repeat": lambda: ex.repeat(stp, 2)(jb),
+                "repeated": lambda: ex.RepeatedStepper(stp, 2)(jb), "forced": lambda: ex.ForcedStepper(stp)(jb, jb)}[how]
+        try:
+            out = call()
+            outcome = "returned " + str(tuple(np.shape(out)))
+        except ValueError:
+            outcome = "ValueError"
+        except Exception as e:  # noqa: BLE001
+            outcome = type(e).__name__
+        accepted = np.asarray(stp(jnp.asarray(good))).shape == good.shape          # the well-formed state is accepted and keeps its shape
+        got = np.array([1.0 if outcome == "ValueError" else 0.0, 1.0 if accepted else 0.0])
+        if outcome != "ValueError":
+            last = dict(last, outcome=outcome)
+        return got, np.array([1.0, 1.0]), 1.0
     if op == "coefs":
         got = np.asarray(ex.spectral.get_fourier_coefficients(ju, round=None))
         want = np.zeros(got.shape, dtype=complex)
